@@ -598,7 +598,7 @@ theorem addLineCount_ov {f : Func} (hf : f.WF) (c : Cnt) :
   unfold addLineCount
   split
   · apply Sat.bind
-    exact (lineCounts_ov hf c _ _ (linesToBlock_lt f)).mono fun _ _ => trivial
+    exact (lineCounts_ov hf c _ _ (linesToBlock_lt hf)).mono fun _ _ => trivial
   · trivial
 
 theorem finStep_ov (branch : Bool) (res : List (Bytes × Cov)) {fc : Func × Cnt} (hf : fc.1.WF) :
